@@ -65,26 +65,27 @@ Definition fc_user_vars (g : fc_cfg) (users : list (Z * fc_user)) (c now : Z) : 
   if (fc_ireset g <=? fc_sub now (fu_start u)) || (fc_greset g <=? fc_sub now (fu_start u))
   then {| fu_start := now; fu_used := 0 |} else u.
 
-(* validPourRequest: every comparison uses PourAmount (not the amount poured) *)
-Definition fc_valid (g : fc_cfg) (u : fc_user) (gused : Z) (bal : option Z) : bool :=
+(* pour: the requested value is poured when 0 < Value < MaxPourAmount *)
+Definition fc_amount (g : fc_cfg) (v : Z) : Z :=
+  if (0 <? v) && (v <? fc_max g) then v else fc_pour g.
+
+(* validPourRequest: every comparison uses the amount that will be poured *)
+Definition fc_valid (g : fc_cfg) (u : fc_user) (gused : Z) (bal : option Z) (a : Z) : bool :=
   match bal with
   | None => false
   | Some b =>
-      if b <? fc_pour g then false else
-      match fc_add_coin (fc_pour g) (fu_used u) with
+      if b <? a then false else
+      match fc_add_coin a (fu_used u) with
       | None => false
       | Some t =>
           if fc_plimit g <? t then false else
-          match fc_add_coin (fc_pour g) gused with
+          match fc_add_coin a gused with
           | None => false
           | Some gt => negb (fc_glimit g <? gt)
           end
       end
   end.
 
-(* pour: the requested value is poured when 0 < Value < MaxPourAmount *)
-Definition fc_amount (g : fc_cfg) (v : Z) : Z :=
-  if (0 <? v) && (v <? fc_max g) then v else fc_pour g.
 
 Inductive fc_field := FPour | FMax | FPLimit | FGLimit | FIReset | FGReset.
 
@@ -115,8 +116,8 @@ Definition fc_step (st : fc_state) (o : fc_op) : fc_state * fc_out :=
       let st1 := fc_globals st now in
       let g := fs_cfg st1 in
       let u := fc_user_vars g (fs_users st1) c now in
-      if fc_valid g u (fs_gused st1) bal then
-        let a := fc_amount g v in
+      let a := fc_amount g v in
+      if fc_valid g u (fs_gused st1) bal a then
         match fc_add_coin (fu_used u) a, fc_add_coin (fs_gused st1) a with
         | Some u', Some g' =>
             ({| fs_cfg := g; fs_gstart := fs_gstart st1; fs_gused := g';
@@ -227,11 +228,4 @@ Definition fc_op_wf (o : fc_op) : Prop :=
   | FcPour _ _ v bal => fc_coin v /\ (forall b, bal = Some b -> fc_coin b)
   | FcRefill _ _ v bal => fc_coin v /\ (forall b, bal = Some b -> fc_coin b)
   | FcUpdate _ _ _ fields => Forall fc_field_wf fields
-  end.
-
-(* the trigger of the defect: a requested value strictly between pour_amount and max_pour_amount *)
-Definition fc_unchecked_value (e : fc_ev) : Prop :=
-  match ev_op e with
-  | FcPour _ _ v _ => fc_pour (ev_cfg e) < v < fc_max (ev_cfg e)
-  | _ => False
   end.
